@@ -1311,3 +1311,66 @@ Qed.
 Lemma merge_o_conservation fs c :
   Permutation (ids_out (map erase_rf (merge_files_o fs c))) (ids_in (map erase_ifile fs)).
 Proof. rewrite merge_o_erase. apply merge_conservation. Qed.
+
+(* ================================================================ readings for single boolean fields *)
+
+Lemma merge_o_file_flags fs c g i : In g (merge_files_o fs c) ->
+  (oflag i (rfo_opts g) = true <->
+   exists f, In f fs /\ fo_route f = rfo_route g /\ oflag i (fo_opts f) = true).
+Proof.
+  intros Hg. rewrite oflag_ohas, (merge_o_file_exact (p_flag i) fs c g (orhom_flag i) Hg).
+  split; intros (f & H1 & H2 & H3); exists f; (split; [exact H1|split; [exact H2|]]).
+  - now rewrite oflag_ohas.
+  - now rewrite <- oflag_ohas.
+Qed.
+
+Lemma ohas_set_none o : ohas p_set o = false <-> o = None.
+Proof. destruct o; cbn [ohas p_set]; split; intros H; try discriminate H; reflexivity. Qed.
+
+(* the output file has no options (nil) exactly when no input file of its routing pair has *)
+Lemma merge_o_file_nil fs c g : In g (merge_files_o fs c) ->
+  (rfo_opts g = None <-> forall f, In f fs -> fo_route f = rfo_route g -> fo_opts f = None).
+Proof.
+  intros Hg. pose proof (merge_o_file_exact p_set fs c g orhom_set Hg) as H. split.
+  - intros E f Hf Hr. apply ohas_set_none. destruct (ohas p_set (fo_opts f)) eqn:Hp; [|reflexivity].
+    assert (X : ohas p_set (rfo_opts g) = true) by (apply H; now exists f). rewrite E in X. discriminate X.
+  - intros Hall. apply ohas_set_none. destruct (ohas p_set (rfo_opts g)) eqn:Hp; [|reflexivity].
+    exfalso. destruct H as [H _]. destruct (H eq_refl) as (f & Hf & Hr & Hq).
+    rewrite (Hall f Hf Hr) in Hq. discriminate Hq.
+Qed.
+
+Lemma merge_o_file_flags_order fs fs' c c' g g' i :
+  Permutation fs fs' -> In g (merge_files_o fs c) -> In g' (merge_files_o fs' c') ->
+  rfo_route g = rfo_route g' ->
+  oflag i (rfo_opts g) = oflag i (rfo_opts g') /\ (rfo_opts g = None <-> rfo_opts g' = None)
+  /\ (ohas p_ctc (rfo_opts g) = ohas p_ctc (rfo_opts g')).
+Proof.
+  intros Hp Hg Hg' Hr. split; [|split].
+  - rewrite !oflag_ohas. eapply merge_o_file_order_independent; eauto using orhom_flag.
+  - rewrite <- !ohas_set_none.
+    now rewrite (merge_o_file_order_independent p_set fs fs' c c' g g' orhom_set Hp Hg Hg' Hr).
+  - eapply merge_o_file_order_independent; eauto using orhom_ctc.
+Qed.
+
+Lemma merge_o_batch_flag_source fs c g rb i :
+  In g (merge_files_o fs c) -> In rb (rfo_batches g) -> oflag i (rbo_opts rb) = true ->
+  exists f ib, In f fs /\ In ib (fo_batches f) /\ fo_route f = rfo_route g
+               /\ hkey (ib_header (ibo_batch ib)) = hkey (rbo_header rb)
+               /\ ib_entries (ibo_batch ib) <> []
+               /\ oflag i (batch_in_opts (fo_opts f) ib) = true.
+Proof.
+  intros Hg Hrb Hf. rewrite oflag_ohas in Hf.
+  destruct (merge_o_batch_no_invention (p_flag i) fs c g rb (orhom_flag i) Hg Hrb Hf)
+    as (f & ib & H1 & H2 & H3 & H4 & H5 & H6).
+  exists f, ib. rewrite oflag_ohas. repeat split; auto.
+Qed.
+
+Lemma merge_o_create_ok fs c :
+  inputs_trace_valid fs ->
+  merge_created_ok (merge_files_o fs c) = true
+  /\ (forall g rb, In g (merge_files_o fs c) -> In rb (rfo_batches g) -> rbo_created rb = Some (rbo_entries rb))
+  /\ Permutation (ids_created (merge_files_o fs c)) (ids_in (map erase_ifile fs)).
+Proof.
+  intros H. split; [now apply merge_o_created_ok|]. split; [|now apply merge_o_created_conservation].
+  intros g rb. now apply merge_o_created.
+Qed.
